@@ -109,6 +109,23 @@ func (fr *Frame) describe(v ssa.Value) string {
 	return v.Name()
 }
 
+func instrIndex(in ssa.Instruction) int {
+	for i, x := range in.Block().Instrs {
+		if x == in {
+			return i
+		}
+	}
+	return -1
+}
+
+func domDepth(b *ssa.BasicBlock) int {
+	d := 0
+	for x := b.Idom(); x != nil; x = x.Idom() {
+		d++
+	}
+	return d
+}
+
 var literalSlice = regexp.MustCompile(`^\(mk_slice (\S+) (\d+) (\d+) (\d+)\)$`)
 
 // step executes one instruction; returns false when the path ends (return/panic).
@@ -125,6 +142,10 @@ func (fr *Frame) step(st *State, ins ssa.Instruction) bool {
 						fr.dbg["&"+id.Name] = v
 					} else {
 						fr.dbg[id.Name] = v
+						if fr.dbgAll == nil {
+							fr.dbgAll = map[string][]dbgRec{}
+						}
+						fr.dbgAll[id.Name] = append(fr.dbgAll[id.Name], dbgRec{v, in.Block(), instrIndex(in)})
 					}
 				}
 			}
@@ -459,6 +480,7 @@ func (fr *Frame) step(st *State, ins ssa.Instruction) bool {
 		fr.chanSendCheck(st, in, fr.anchorName(in, "send"), ch, v)
 		fr.chanOp(st, in, ch, "send", true)
 		fr.nopanic(st, fr.anchorName(in, "send")+"-on-closed", sNot(sSelect(r.get(st, "g|$closed"), ch.S)), in.Pos(), "send on closed channel")
+		fr.atAnchors(st, in, true, map[string]Val{"chan": ch, "value": v})
 		return true
 
 	case *ssa.SliceToArrayPointer, *ssa.MultiConvert:
